@@ -124,6 +124,18 @@ func (c *Ctx) c05Malformed(s *c05Set) {
 				c.c05Step(s, ev, si, rlk, op, d0, c05Arg{kind: "r", reg: c.c05NewPt(s, L, 1)}, newOut)
 			}
 			c.c05Step(s, ev, si, rlk, "mta", d0, c05Arg{kind: "r", reg: c.c05NewPt(s, L, 1)}, c05Out{mode: "into", reg: mk(L)})
+			// a degree-0 ciphertext as op0 of a product with a ciphertext: error
+			for _, op := range []string{"mul", "mulrelin", "mulsi", "mulrelinsi"} {
+				c.c05Step(s, ev, si, rlk, op, d0, c05Arg{kind: "r", reg: mk(L)}, newOut)
+				c.c05Step(s, ev, si, rlk, op, d0, c05Arg{kind: "vu", vu: make([]uint64, s.n)}, newOut)
+			}
+			c.c05Step(s, ev, si, rlk, "mta", d0, c05Arg{kind: "r", reg: mk(L)}, c05Out{mode: "into", reg: mk(L)})
+			c.c05Step(s, ev, si, rlk, "mrta", d0, c05Arg{kind: "r", reg: mk(L)}, c05Out{mode: "into", reg: mk(L)})
+			// Rescale into a receiver of another degree
+			if L >= 1 {
+				c.c05Step(s, ev, si, rlk, "rescale", mk(L), c05Arg{kind: "none"}, c05Out{mode: "into", reg: &c05Reg{ct: bgv.NewCiphertext(s.params, 2, L), want: make([]uint64, s.n)}})
+				c.c05Step(s, ev, si, rlk, "rescale", deg2(), c05Arg{kind: "none"}, c05Out{mode: "into", reg: &c05Reg{ct: bgv.NewCiphertext(s.params, 1, L), want: make([]uint64, s.n)}})
+			}
 		}
 	}
 }
@@ -300,6 +312,36 @@ func (c *Ctx) c05Probes(s *c05Set) {
 				}
 				c.Probe("alias_out_op1", fmt.Sprintf("%s op=%s sa=%d sb=%d", s.name, op, sa, sb), "C05-out-aliases-op1-mismatched-scales", detail)
 			}
+		}
+
+		// --- alias_out_op1_si: scale-invariant product written onto its second operand (different scales)
+		for _, op := range []string{"mulsi", "mulrelinsi"} {
+			sa := 2 + c.rng.Below(t-3)
+			sb := c05MulMod(sa, 3, t)
+			a, b := c.c05NewCt(s, L, sa), c.c05NewCt(s, L, sb)
+			want := msgOp(a.want, b.want, mul)
+			detail := ""
+			if float64(s.logN)+2*s.lt+float64(s.logN)+14 > s.logQ[L] {
+				continue
+			}
+			st := Try(func() string {
+				var err error
+				if op == "mulsi" {
+					err = ev.MulScaleInvariant(a.ct, b.ct, b.ct)
+				} else {
+					err = ev.MulRelinScaleInvariant(a.ct, b.ct, b.ct)
+				}
+				if err != nil {
+					return "err"
+				}
+				return "ok"
+			})
+			if st != "ok" {
+				detail = st
+			} else if got := s.decodeCt(b.ct); !eq(got, want) {
+				detail = fmt.Sprintf("wrong-value: out.scale=%d sa=%d sb=%d slot0 got %d want %d", b.ct.Scale.Uint64(), sa, sb, got[0], want[0])
+			}
+			c.Probe("alias_out_op1_si", fmt.Sprintf("%s op=%s sa=%d sb=%d", s.name, op, sa, sb), "C05-scale-invariant-out-aliases-op1-scale", detail)
 		}
 
 		// --- scalar_out_scale: XNew(ct, scalar) when ct.Scale != default scale
